@@ -22,6 +22,7 @@ Check (C17_data : forall st c a av j d,
     ((is_main d = true /\ In (pred_name c d, pred_json (d_val d)) pre)
      \/ (is_main d = false /\ exists bm, In (LIT "body", JObj bm) pre /\ In (pred_name c d, pred_json (d_val d)) bm))).
 Check (C17_int_content : forall z, num_int (dec_Z z) = Some z).
+Check (C17_no_duplicates_no_loss : forall j, has_dup_keys j = false -> norm false j = norm true j).
 Print Assumptions C17_unescape_escape.
 Print Assumptions C17_parse_render.
 Print Assumptions C17_parse_tokens_of.
@@ -30,6 +31,7 @@ Print Assumptions C17_targets.
 Print Assumptions C17_data.
 Print Assumptions C17_int_content.
 Print Assumptions C17_numbers_wellformed.
+Print Assumptions C17_no_duplicates_no_loss.
 Print Assumptions Known_C17_nonfinite_witness.
 Print Assumptions Known_C17_config_chars_witness.
 Print Assumptions Known_C17_nested_unexportable_witness.
